@@ -38,3 +38,26 @@ func TestAllMessagesDecode(t *testing.T) {
 	}
 	t.Logf("%d message types", n)
 }
+
+func TestReadSharedDeterministic(t *testing.T) {
+	Quiet()
+	s := SharedMessage()
+	a, b := ReadShared(s), ReadShared(s)
+	if a != b {
+		t.Fatalf("%s vs %s", a, b)
+	}
+	t.Logf("%d shared messages, digest %s", len(s.Msgs), a)
+}
+
+func TestSharedHasMultiLabelDNN(t *testing.T) {
+	Quiet()
+	s := SharedMessage()
+	for _, m := range s.Msgs {
+		if m.GmmMessage != nil && m.GmmMessage.ULNASTransport != nil && m.GmmMessage.ULNASTransport.DNN != nil {
+			if d := m.GmmMessage.ULNASTransport.DNN.GetDNN(); d == "ims.mnc001.mcc001.gprs" {
+				return
+			}
+		}
+	}
+	t.Fatal("no shared UL NAS TRANSPORT with the multi-label DNN")
+}
